@@ -747,6 +747,11 @@ def run(tier, seed, t0):
         for w in ((1, 2, 5) if tier == "quick" else range(1, min(len(s), 8) + 1)):
             if w <= len(s):
                 cases.append({"kind": "linear", "seq": s, "w": w})
+    # wide windows over charge-rich, slightly unbalanced stretches: profile values far below a thousandth of the axis range must
+    # still be drawn with their true (tiny) heights
+    for s in (("KE" * 60 + "K") * 2, ("KKEEKEKE" * 30)[:221] + "K"):
+        for w in ((33, 75, len(s) - 1) if tier == "quick" else (32, 33, 40, 50, 75, 100, len(s) - 1, len(s))):
+            cases.append({"kind": "linear", "seq": s, "w": w})
     nsh = 16 * 6
     acc = core.pmap(shard, [cases[i::nsh] for i in range(nsh)])
     return core.finish(
@@ -762,7 +767,7 @@ def run(tier, seed, t0):
              "single / multiple / multiple2) x the full product label{'', 'x', long} x title{default,custom} x legend x xLim{1,.5} x "
              "yLim{1,.5} x font{10,6} (96 configurations) on three sequences: markers at the true coordinates, requested title, axis "
              "labels, limits, point labels and font, a figure returned when getFig; every entry point x {png,pdf,svg} written to a "
-             "real temp file (absolute path; also a bare name in a working directory on another file system where one exists, with and without an older file in place); five further pairs of axis limits (second decimals, above 1, unequal) on every entry point and the region polygons of five zoomed diagrams x every composition to 16/30; labelled multi-sequence plots of sequences whose markers share an x-coordinate; every entry point's save in {png,pdf,svg,ps} followed, with nothing closed by the caller, by three further plots (each returned figure closed by the caller, then the save repeated) and a linear profile of another sequence (each figure must show exactly its own markers / bars). (3) linear plots: show/save_linear{NCPR,FCR,Sigma,Hydropathy} x windows: N bars centred on 1..N with "
+             "real temp file (absolute path; also a bare name in a working directory on another file system where one exists, with and without an older file in place); five further pairs of axis limits (second decimals, above 1, unequal) on every entry point and the region polygons of five zoomed diagrams x every composition to 16/30; labelled multi-sequence plots of sequences whose markers share an x-coordinate; every entry point's save in {png,pdf,svg,ps} followed, with nothing closed by the caller, by three further plots (each returned figure closed by the caller, then the save repeated) and a linear profile of another sequence (each figure must show exactly its own markers / bars). (3) linear plots: show/save_linear{NCPR,FCR,Sigma,Hydropathy} x windows (1, 2, 5 and 33, 75, N-1 on charge-rich 222/242-residue sequences): N bars centred on 1..N with "
              "the heights of get_linear_*. save_* figures are inspected at the moment savefig is called. non-trivial = all but "
              "single-charge-type region cases" % (NK, NP, HN, len(ep_sel)),
         bounds={"region_K": NK, "entry_points": len(ep_sel), "configurations": len(cfgs), "linear_sequences": len(lin_seqs)},
